@@ -974,7 +974,16 @@ gen_devtape(struct prng * g, struct pline * l, int n, int pfault)
 			case 3: pline_tok(l, 1, (int64_t)5); break;
 			case 4: pline_tok(l, 1, (int64_t)6); break;
 			case 5: pline_tok(l, 1, (int64_t)7); break;
-			default: pline_tok(l, 2, (int64_t)2, (int64_t)(1 + prng_n(g, 47))); break;
+			default:
+				pline_tok(l, 2, (int64_t)2, (int64_t)(1 + prng_n(g, 47)));
+				/* what follows a partial read matters: end-of-file, an error or an interruption right after it */
+				if (prng_chance(g, 40) && i + 1 < n) {
+					static const int64_t nx[] = { 5, 5, 3, 4 };
+
+					pline_tok(l, 1, nx[prng_n(g, 4)]);
+					i++;
+				}
+				break;
 			}
 		} else
 			pline_tok(l, 1, (int64_t)0);
